@@ -66,7 +66,23 @@ func turnstile() *mach.ASpec {
 	return &mach.ASpec{Nodes: map[string]*mach.ANode{"locked": {BType: "message", Branches: brs}, "unlocked": {BType: "message", Branches: brs}}}
 }
 
-var specs = map[string]*mach.ASpec{"door": door(), "turnstile": turnstile()}
+// blinker: every tick re-creates the timer that sends the next tick - the timer is re-created under its own id
+// by the handler of its own firing message
+func blinker() *mach.ASpec {
+	return &mach.ASpec{Nodes: map[string]*mach.ANode{
+		"start": {BType: "message", Branches: []mach.ABranch{{HasPat: true, Pat: obj("tick", true), Target: "arm"}, {HasPat: true, Pat: obj("stop", true), Target: "halt"}}},
+		"arm":   {Act: []mach.Op{{Name: "emitb", K: "mk"}}, BType: "bindings", Branches: []mach.ABranch{{Target: "start"}}},
+		"halt":  {Act: []mach.Op{{Name: "emitb", K: "cn"}}, BType: "bindings", Branches: []mach.ABranch{{Target: "start"}}},
+	}}
+}
+
+func blinkerBs(mid string) M {
+	tid := "blink-" + mid
+	return obj("mk", obj("to", "timers", "makeTimer", obj("in", timerIn, "id", tid, "msg", obj("to", mid, "tick", true))),
+		"cn", obj("to", "timers", "cancelTimer", tid))
+}
+
+var specs = map[string]*mach.ASpec{"door": door(), "turnstile": turnstile(), "blinker": blinker()}
 
 // the delay of every timer of the scenario ("1ms" where timer goroutines are gated; longer in stdio mode)
 var timerIn = func() string {
@@ -89,7 +105,7 @@ type minit struct {
 	bs         M
 }
 
-var initial = map[string]minit{"d1": {"door", "locked", doorBs("d1")}, "t1": {"turnstile", "locked", M{}}}
+var initial = map[string]minit{"d1": {"door", "locked", doorBs("d1")}, "t1": {"turnstile", "locked", M{}}, "b1": {"blinker", "start", blinkerBs("b1")}}
 
 type input struct {
 	k      string // msg | add | del
@@ -117,6 +133,9 @@ func inputs() []input {
 		{k: "msg", m: obj("to", T{"t1", "d1"}, "input", "coin")},
 		{k: "del", m: obj("to", "captain", "verifOp", "del-d1"), mid: "d1"},
 		{k: "msg", m: obj("to", "*", "input", "push")},
+		{k: "msg", m: obj("to", "b1", "tick", true)},
+		{k: "msg", m: obj("to", "b1", "stop", true)},
+		{k: "msg", m: obj("to", T{"timers", "d1"}, "cancelTimer", "blink-b1", "input", "coin"), direct: true},
 	}
 }
 
